@@ -182,6 +182,24 @@ pub fn generate(g: &mut Gen) {
             g.push(format!("opt.run {} 1 1 1 {} {} {}", spec.token(), qt(&w), hist.len(), steps.join(" ")), Tol::Tight, &format!("{}/zero-then-non-zero/rank{}", spec.kind(), ri + 1), true);
         }
     }
+    // the optimizer as the NETWORK attaches it (set_optimizer -> every layer and every feedback block receive the configured
+    // instance): one-repetition blocks train like their layers, blocks and plain layers follow the configured rule
+    {
+        use crate::ops::net::{Build, InnerSpec, NetSpec};
+        let opts = [OptSpec::Sgd(0.01, Some(0.5)), OptSpec::Sgd(0.25, None), OptSpec::Sgdm(0.05, 0.9, 0.1, None), OptSpec::Adam(0.01, 0.9, 0.999, 1e-8, Some(0.01)),
+            OptSpec::AdamW(0.01, 0.9, 0.999, 1e-8, 0.05), OptSpec::Rmsprop(0.01, 0.9, 1e-8, None, Some(0.5), true)];
+        for o in opts.iter() {
+            for loops in [1usize, 2] {
+                let w = |g: &mut Gen, r: usize, c: usize| g.tensor_of(&Shape::Double(r, c), false);
+                let inner = InnerSpec::Dense { out: 3, act: "tanh".into(), bias: true, dropout: None, w: w(g, 3, 3), b: Some(g.tensor_of(&Shape::Single(3), false)) };
+                let head = InnerSpec::Dense { out: 2, act: "linear".into(), bias: true, dropout: None, w: w(g, 2, 3), b: Some(g.tensor_of(&Shape::Single(2), false)) };
+                let net = NetSpec { input: Shape::Single(3), builds: vec![Build::Feedback { inner: vec![inner], loops, inskips: false, outskips: false, acc: "mean".into() }, Build::Layer(head)],
+                    skipacc: "add".into(), loopacc: "mean".into(), opt: Some(o.clone()), obj: "mse".into(), clamp: None };
+                let s: Vec<String> = (0..3).map(|_| format!("{} {}", qt(&g.tensor_of(&Shape::Single(3), false)), qt(&g.tensor_of(&Shape::Single(2), false)))).collect();
+                g.push(format!("net {} learn 3 {} 0 2 3 0", net.token(), s.join(" ")), Tol::Loose, &format!("network/{}/block-x{}", o.kind(), loops), true);
+            }
+        }
+    }
     // out-of-range slot: refused
     let p = params_for(g, 0);
     let grad = g.tensor_of(&Shape::Double(2, 3), false);
